@@ -63,6 +63,7 @@ def classify(g, test_t, test_x, trial_t, trial_x):
         sc += '_eq' if abs(hx - hy) < 1e-10 else ('_first_longer' if ((hx > hy) != info['swap']) else '_second_longer')
     near = gap <= min(hx, hy)
     info['gap_in_short_widths'] = gap / min(hx, hy)
+    info['gap_over_long'] = gap / max(hx, hy)
     a, b = test_t
     c, d = trial_t
     if b <= c:
@@ -79,8 +80,15 @@ def classify(g, test_t, test_x, trial_t, trial_x):
 
 
 def close_disjoint_excluded(info, sc):
-    """the measured domain bound of DESIGN.md 2.1: disjoint panels within 4 short widths at size ratio > 8"""
-    return sc.startswith('disjoint') and info['gap_in_short_widths'] <= 4.0 and info['ratio'] > 8.0
+    """the measured domain bound of DESIGN.md 2.1 / 7.7: the product rule of the disjoint branch (and the remainder
+    panels of the unequal touching branches) loses accuracy when a short panel sits close to a much longer one:
+      disjoint, size ratio > 8, and gap <= 4 short widths or gap < 1/8 of the long panel;
+      touching (same piece, corner, seam) with size ratio > 64."""
+    if sc.startswith('disjoint'):
+        return info['ratio'] > 8.0 and (info['gap_in_short_widths'] <= 4.0 or info['gap_over_long'] < 0.125)
+    if sc.startswith('touch'):
+        return info['ratio'] > 64.0 * (1 + 1e-9)
+    return False
 
 
 # ------------------------------------------------------------------ target-driven meshes
@@ -138,15 +146,21 @@ def graded_space_grid(name, towards, ratio_steps):
     ratios <= 4: extra points at distance side * r_k from the break point, r_k a decreasing sequence"""
     br = gens.curve_breaks(name)
     pts = set(br)
-    i = towards % (len(br) - 1)
+    n = len(br) - 1
+    i = towards % n
     a, b = br[i], br[i + 1]
     d = b - a
+    # the piece on the other side of the break point a (through the seam on closed curves) is graded symmetrically
+    j = (i - 1) % n if (i > 0 or name != 'UnitInterval') else None
     frac = 1.0
     for r in ratio_steps:
         frac /= r
         if frac < 1.0 / 64:
             break
         pts.add(a + d * frac)
+        if j is not None:
+            a2, b2 = br[j], br[j + 1]
+            pts.add(b2 - min(d, b2 - a2) * frac)
     return sorted(pts)
 
 
@@ -206,9 +220,11 @@ def piece_cases(max_ops=20, curves=None):
 
 # ------------------------------------------------------------------ realisation
 def aspect_ok(e, limit=32.0):
+    """aspect bound of the properties; elements narrower than 1e-5 are outside the operators' own input validation
+    (the interval rules assert panel widths > 1e-5 / 1e-7)"""
     hx = e.space_interval[1] - e.space_interval[0]
     ht = e.time_interval[1] - e.time_interval[0]
-    return hx * hx / ht <= limit * (1 + 1e-12)
+    return hx > 4e-5 and hx * hx / ht <= limit * (1 + 1e-12)
 
 
 def _targets(case, n_t, n_x, closed, breaks_at_roots, need_level=None):
@@ -396,7 +412,7 @@ def realise(case, max_aspect=32.0):
         if reason:
             return None, None, None, reason
         return realise_boxes(spec, A, B)
-    live = Live(spec)
+    live = Live(spec, min_hx=1e-4)
     for op in case['ops']:
         apply_op(live, op, cap=300)
     live.applied_ops = list(case['ops'])
@@ -443,7 +459,7 @@ def make_piece(live, elem, kind, real_children=False):
     of a replayed copy of the mesh"""
     from src.hierarchical_error_estimator import DummyElement
     if real_children and kind[0] in 'tx':
-        copy = Live(live.spec)
+        copy = Live(live.spec, min_hx=live.min_hx)
         for op in getattr(live, 'applied_ops', []):
             apply_op(copy, op, cap=300)
         key = live.skey(elem).key
